@@ -202,7 +202,13 @@ def main():
                     p = blackbird.loads(step["text"]) if "text" in step else blackbird.load(step["path"])
                     holder.append(p)
                     return p
-                res.append(outcome(run))
+                cwd_before = os.getcwd()
+                o_ = outcome(run)
+                if not step.get("cwd") and os.getcwd() != cwd_before:
+                    # the load itself moved the process to another working directory: every later load that names a file or an
+                    # include relatively is resolved elsewhere from now on
+                    o_["working_directory_changed_by_the_load"] = os.getcwd()
+                res.append(o_)
                 progs.append(holder[0] if holder else None)
             # programs returned by different loads share no mutable state
             def mutable_ids(x, acc, depth=0):
